@@ -162,7 +162,7 @@ def judge_real(h, lines, end):
             if end.startswith("E died"):
                 kind = end.split()[2]
                 cls = (dead or classes or ["-"])[0]
-                verdicts.append((f"{kind}:{call}:{cls}",
+                verdicts.append((f"{kind}:{call}",
                                  f"{call} on a {cls} descriptor aborts in the sanitizer ({kind}, {end.split()[3]})", i))
             break
         line = lines[i]
@@ -173,7 +173,7 @@ def judge_real(h, lines, end):
             extra = ""
             if call == "fd_seek" and meta["args"][2] > 2:
                 extra = "-invalid-whence"
-            verdicts.append((f"not-ebadf:{call}{extra}:{dead[0]}:{errno}",
+            verdicts.append((f"not-ebadf:{call}{extra}",
                              f"{call}{extra} on a {dead[0]} descriptor returns {errno} instead of EBADF (8)", i))
         # bookkeeping from what the real code answered
         if errno == 0 and call == "path_open":
@@ -191,9 +191,7 @@ def compare(h, real, model):
         if i >= len(rl) or i >= len(ml):
             break
         a, b = wo.canon_line(rl[i]), wo.canon_line(ml[i])
-        if b == "r unmodelled":
-            if a.split()[:2] == ["r", "8"]:
-                return f"line {i} `{h.lines[i]}`: model reaches the host call, real returns EBADF"
+        if b == "r unmodelled":      # the model reached a host call it does not model (listing, rename, lseek on a directory, …)
             continue
         if a != b:
             return f"line {i} `{h.lines[i]}`: real `{a}` model `{b}`"
